@@ -16,7 +16,7 @@ type rootGenerator struct {
 func newRootGenerator(r io.Reader) *rootGenerator {
 	return &rootGenerator{
 		counter:       newCounter(),
-		scanner:       bufio.NewScanner(r),
+		scanner:       newLineScanner(r),
 		nodeGenerator: newNodeGenerator(),
 	}
 }
